@@ -88,9 +88,9 @@ Proof.
 Qed.
 
 (* the rules as a list split at position i *)
-Lemma rules_at : forall i, i < 10 ->
+Lemma rules_at : forall i, (i <? 10) = true ->
   lexer_rules = map rule_at (seq 0 i) ++ rule_at i :: map rule_at (seq (S i) (9 - i)).
-Proof. intros i H. do 10 (destruct i as [|i]; [reflexivity|]). lia. Qed.
+Proof. intros i H. do 10 (destruct i as [|i]; [reflexivity|]). discriminate. Qed.
 
 Lemma in_map_rule_at r l : In r (map rule_at l) -> exists i, In i l /\ r = rule_at i.
 Proof. intros H. apply in_map_iff in H. destruct H as (i & <- & Hi). eauto. Qed.
@@ -125,42 +125,39 @@ Qed.
 (* LPAREN *)
 Lemma lex_lparen t : cql_lex (40%N :: t) = pushl [(LPAREN, [40%N])] (cql_lex t).
 Proof.
-  destruct grammar_shapes as (R0 & S0 & K0 & _).
   assert (P : pick lexer_rules ([40%N] ++ t) None = Some (rule_at 0, 1)).
-  { rewrite (rules_at 0) by lia. apply (pick_winner []); [lia| |intros r []|].
-    - rewrite R0. cbn [app]. rewrite longest_class. reflexivity.
+  { rewrite (rules_at 0 eq_refl). apply (pick_winner []); [lia| |intros r []|].
+    - rewrite re0. cbn [app]. rewrite longest_class. reflexivity.
     - cbn [seq map Nat.sub]. intros r Hr.
       destruct Hr as [<-|[<-|[<-|[<-|[<-|[<-|[<-|[<-|[<-|[]]]]]]]]]];
         try (cbn [app]; rewrite dead1_olen by (apply dead_lparen; cbn [In]; tauto); lia).
       cbn [app]. rewrite error_olen. lia. }
   change (40%N :: t) with ([40%N] ++ t).
-  rewrite (lex_token [40%N] t (rule_at 0) ltac:(discriminate) P). rewrite S0, K0. reflexivity.
+  rewrite (lex_token [40%N] t (rule_at 0) ltac:(discriminate) P). rewrite sk0, kd0. reflexivity.
 Qed.
 
 (* RPAREN *)
 Lemma lex_rparen t : cql_lex (41%N :: t) = pushl [(RPAREN, [41%N])] (cql_lex t).
 Proof.
-  destruct grammar_shapes as (_ & _ & _ & R1 & S1 & K1 & _).
   assert (P : pick lexer_rules ([41%N] ++ t) None = Some (rule_at 1, 1)).
-  { rewrite (rules_at 1) by lia. apply pick_winner; [lia| | |].
-    - rewrite R1. cbn [app]. rewrite longest_class. reflexivity.
+  { rewrite (rules_at 1 eq_refl). apply pick_winner; [lia| | |].
+    - rewrite re1. cbn [app]. rewrite longest_class. reflexivity.
     - cbn [seq map]. intros r [<-|[]]. cbn [app]. rewrite dead1_olen by (apply dead_rparen; cbn [In]; tauto). lia.
     - cbn [seq map Nat.sub]. intros r Hr.
       destruct Hr as [<-|[<-|[<-|[<-|[<-|[<-|[<-|[<-|[]]]]]]]]];
         try (cbn [app]; rewrite dead1_olen by (apply dead_rparen; cbn [In]; tauto); lia).
       cbn [app]. rewrite error_olen. lia. }
   change (41%N :: t) with ([41%N] ++ t).
-  rewrite (lex_token [41%N] t (rule_at 1) ltac:(discriminate) P). rewrite S1, K1. reflexivity.
+  rewrite (lex_token [41%N] t (rule_at 1) ltac:(discriminate) P). rewrite sk1, kd1. reflexivity.
 Qed.
 
 (* a single space before a character that is not white space: skipped *)
 Lemma lex_space c t : inW c = false -> cql_lex (32%N :: c :: t) = cql_lex (c :: t).
 Proof.
   intros Hc.
-  destruct grammar_shapes as (_ & _ & _ & _ & _ & _ & _ & _ & _ & _ & _ & _ & _ & _ & _ & _ & _ & _ & R8 & S8 & _).
   assert (P : pick lexer_rules ([32%N] ++ c :: t) None = Some (rule_at 8, 1)).
-  { rewrite (rules_at 8) by lia. apply pick_winner; [lia| | |].
-    - rewrite R8. rewrite longest_plus_class. cbn [app span].
+  { rewrite (rules_at 8 eq_refl). apply pick_winner; [lia| | |].
+    - rewrite re8. rewrite longest_plus_class. cbn [app span].
       replace (in_cset 32%N Wset) with true by (vm_compute; reflexivity).
       unfold inW in Hc. rewrite Hc. reflexivity.
     - cbn [seq map]. intros r Hr.
@@ -168,7 +165,7 @@ Proof.
         cbn [app]; rewrite dead1_olen by (apply dead_space; cbn [In]; tauto); lia.
     - cbn [seq map Nat.sub]. intros r [<-|[]]. cbn [app]. rewrite error_olen. lia. }
   change (32%N :: c :: t) with ([32%N] ++ c :: t).
-  rewrite (lex_token [32%N] (c :: t) (rule_at 8) ltac:(discriminate) P). rewrite S8. reflexivity.
+  rewrite (lex_token [32%N] (c :: t) (rule_at 8) ltac:(discriminate) P). rewrite sk8. reflexivity.
 Qed.
 
 (* ---- tokens with a fixed text: attribute names, operators, AND, OR ----------------------------------------- *)
@@ -232,7 +229,6 @@ Lemma lex_prefixed : forall pre key t, (pre = prefix_fields \/ pre = prefix_urns
   cql_lex (pre ++ key ++ 32%N :: t) = pushl [(PROPERTY, pre ++ key)] (cql_lex (32%N :: t)).
 Proof.
   intros pre key t Hpre [Hne Hk].
-  destruct grammar_shapes as (_ & _ & _ & _ & _ & _ & _ & _ & _ & _ & _ & _ & R6 & S6 & K6 & R7 & _ & _ & _).
   destruct prefix_states as (A1 & D1 & A2 & D2).
   assert (Hal : alive PROPre pre = true /\ derivs PROPre pre = Cat (Chr Kset) (Star (Chr Kset))
                 /\ exists c pre', pre = c :: pre' /\ (c = 102 \/ c = 117)%N).
@@ -240,9 +236,9 @@ Proof.
   destruct Hal as (Hal & Hd & c0 & pre' & Epre & Hc0).
   assert (Hw : pre ++ key <> []) by (rewrite Epre; discriminate).
   assert (P : pick lexer_rules ((pre ++ key) ++ 32%N :: t) None = Some (rule_at 6, length (pre ++ key))).
-  { rewrite (rules_at 6) by lia. apply pick_winner.
+  { rewrite (rules_at 6 eq_refl). apply pick_winner.
     - rewrite Epre. cbn [app length]. lia.
-    - rewrite R6. fold PROPre. rewrite <- app_assoc. unfold longest.
+    - rewrite re6. fold PROPre. rewrite <- app_assoc. unfold longest.
       destruct (lm_alive pre PROPre (key ++ 32%N :: t) 0 None Hal) as [b ->].
       rewrite Hd. rewrite (lm_key Kset key (32%N :: t) (0 + length pre) b Hne Hk).
       + rewrite app_length. reflexivity.
@@ -253,11 +249,11 @@ Proof.
       destruct Hr as [<-|[<-|[<-|[<-|[<-|[<-|[]]]]]]];
         rewrite dead1_olen by (apply Hdead; cbn [In]; tauto); cbn [length]; lia.
     - cbn [seq map Nat.sub]. intros r Hr. destruct Hr as [<-|[<-|[<-|[]]]].
-      + rewrite R7, longest_plus_class, olen_span. apply span_bound. apply sepT. cbn [In]. tauto.
+      + rewrite re7, longest_plus_class, olen_span. apply span_bound. apply sepT. cbn [In]. tauto.
       + rewrite <- app_assoc, Epre. cbn [app].
         rewrite dead1_olen; [lia|]. destruct Hc0 as [-> | ->]; [apply dead_f|apply dead_u]; cbn [In]; tauto.
       + rewrite <- app_assoc, Epre. cbn [app]. rewrite error_olen. cbn [app length]. lia. }
-  rewrite app_assoc. rewrite (lex_token (pre ++ key) (32%N :: t) (rule_at 6) Hw P). rewrite S6, K6. reflexivity.
+  rewrite app_assoc. rewrite (lex_token (pre ++ key) (32%N :: t) (rule_at 6) Hw P). rewrite sk6, kd6. reflexivity.
 Qed.
 
 Lemma lex_attribute : forall key ft t, In (key, ft) attributes ->
@@ -275,7 +271,7 @@ Definition rest_ok (t : list N) : Prop := match t with [] => True | c :: _ => (c
 Lemma rest_ok_stops t : rest_ok t -> stops Kset t /\ stops Tset t.
 Proof.
   destruct t as [|c t]; cbn [rest_ok stops]; [tauto|].
-  intros [-> | ->]; split; first [apply sepK|apply sepT]; cbn [In]; tauto.
+  intros [-> | ->]; (split; [apply sepK|apply sepT]); cbn [In]; tauto.
 Qed.
 
 Lemma digits_inK v : forallb is_digit v = true -> forallb (fun c => in_cset c Kset) v = true.
@@ -291,24 +287,23 @@ Lemma lex_digits : forall v t, v <> [] -> forallb is_digit v = true -> rest_ok t
   cql_lex (v ++ t) = pushl [(PROPERTY, v)] (cql_lex t).
 Proof.
   intros v t Hne Hd Ht.
-  destruct grammar_shapes as (_ & _ & _ & _ & _ & _ & _ & _ & _ & _ & _ & _ & R6 & S6 & K6 & R7 & _ & _ & _).
   destruct (rest_ok_stops t Ht) as [HsK HsT].
   destruct v as [|c v']; [congruence|]. cbn [forallb] in Hd. apply andb_prop in Hd. destruct Hd as [Hc Hd'].
   destruct (digit_facts c Hc) as (HcK & HcT & HcL).
   assert (P : pick lexer_rules ((c :: v') ++ t) None = Some (rule_at 6, length (c :: v'))).
-  { rewrite (rules_at 6) by lia. apply pick_winner.
+  { rewrite (rules_at 6 eq_refl). apply pick_winner.
     - cbn [length]. lia.
-    - rewrite R6. cbn [app]. rewrite (longest_prop_nonletter Lset Kset c (v' ++ t) HcL HcK).
+    - rewrite re6. cbn [app]. rewrite (longest_prop_nonletter Lset Kset c (v' ++ t) HcL HcK).
       rewrite span_run by (try apply digits_inK; assumption). reflexivity.
     - cbn [seq map]. intros r Hr. cbn [app length].
       destruct Hr as [<-|[<-|[<-|[<-|[<-|[<-|[]]]]]]];
         rewrite dead1_olen by (apply dead_digit; [exact Hc|cbn [In]; tauto]); lia.
     - cbn [seq map Nat.sub]. intros r Hr. destruct Hr as [<-|[<-|[<-|[]]]].
-      + rewrite R7, longest_plus_class, olen_span.
+      + rewrite re7, longest_plus_class, olen_span.
         rewrite span_run; [lia| |exact HsT]. apply digits_inT. cbn [forallb]. rewrite Hc, Hd'. reflexivity.
       + cbn [app]. rewrite dead1_olen by (apply dead_digit; [exact Hc|cbn [In]; tauto]). lia.
       + cbn [app]. rewrite error_olen. cbn [length]. lia. }
-  rewrite (lex_token (c :: v') t (rule_at 6) ltac:(discriminate) P). rewrite S6, K6. reflexivity.
+  rewrite (lex_token (c :: v') t (rule_at 6) ltac:(discriminate) P). rewrite sk6, kd6. reflexivity.
 Qed.
 
 Lemma lex_decimal : forall a d t, a <> [] -> d <> [] -> forallb is_digit a = true -> forallb is_digit d = true ->
@@ -316,36 +311,36 @@ Lemma lex_decimal : forall a d t, a <> [] -> d <> [] -> forallb is_digit a = tru
   cql_lex ((a ++ 46%N :: d) ++ t) = pushl [(TEXT, a ++ 46%N :: d)] (cql_lex t).
 Proof.
   intros a d t Ha Hd Hda Hdd Ht.
-  destruct grammar_shapes as (_ & _ & _ & _ & _ & _ & _ & _ & _ & _ & _ & _ & R6 & _ & _ & R7 & S7 & K7 & _).
   destruct (rest_ok_stops t Ht) as [HsK HsT].
   destruct class_facts as (_ & D_K & D_L & D_T & _).
   destruct a as [|c a']; [congruence|]. cbn [forallb] in Hda. apply andb_prop in Hda. destruct Hda as [Hc Hda'].
   destruct (digit_facts c Hc) as (HcK & HcT & HcL).
-  set (v := (c :: a') ++ 46%N :: d).
-  assert (HvT : forallb (fun x => in_cset x Tset) v = true).
-  { unfold v. rewrite forallb_app. cbn [forallb]. unfold inT in D_T. rewrite D_T.
+  cbn [app].
+  assert (HvT : forallb (fun x => in_cset x Tset) (c :: a' ++ 46%N :: d) = true).
+  { change (c :: a' ++ 46%N :: d) with ((c :: a') ++ 46%N :: d). rewrite forallb_app.
     rewrite (digits_inT (c :: a')) by (cbn [forallb]; rewrite Hc, Hda'; reflexivity).
-    rewrite (digits_inT d Hdd). reflexivity. }
-  assert (Hlen : length (c :: a') < length v).
-  { unfold v. rewrite app_length. cbn [length]. lia. }
-  assert (P : pick lexer_rules (v ++ t) None = Some (rule_at 7, length v)).
-  { rewrite (rules_at 7) by lia. apply pick_winner.
-    - lia.
-    - rewrite R7, longest_plus_class. rewrite span_run by assumption.
-      destruct (length v) eqn:E; [lia|reflexivity].
-    - cbn [seq map]. intros r Hr.
+    cbn [forallb andb]. unfold inT in D_T. rewrite D_T. rewrite (digits_inT d Hdd). reflexivity. }
+  assert (Hlen : S (length a') < length (c :: a' ++ 46%N :: d)).
+  { clear. cbn [length]. rewrite app_length. cbn [length]. lia. }
+  assert (Hdead : forall i, In i [0; 1; 2; 3; 4; 5; 8] -> dead1 c i = true).
+  { intros i Hi. apply dead_digit; assumption. }
+  assert (P : pick lexer_rules ((c :: a' ++ 46%N :: d) ++ t) None = Some (rule_at 7, length (c :: a' ++ 46%N :: d))).
+  { rewrite (rules_at 7 eq_refl). apply pick_winner.
+    - clear. cbn [length]. lia.
+    - rewrite re7, longest_plus_class. rewrite span_run by assumption. reflexivity.
+    - cbn [seq map]. intros r Hr. cbn [app].
       destruct Hr as [<-|[<-|[<-|[<-|[<-|[<-|[<-|[]]]]]]]];
-        try (unfold v; cbn [app]; rewrite dead1_olen by (apply dead_digit; [exact Hc|cbn [In]; tauto]); lia).
-      rewrite R6. unfold v. cbn [app].
+        try (rewrite dead1_olen by (apply Hdead; cbn [In]; tauto); clear; cbn [length]; lia).
+      rewrite re6.
       rewrite (longest_prop_nonletter Lset Kset c _ HcL HcK). cbn [olen].
       rewrite <- app_assoc. cbn [app].
-      rewrite (span_run Kset a' (46%N :: d ++ t)); [cbn [length] in Hlen; cbn [length]; lia|apply digits_inK; exact Hda'|].
+      rewrite (span_run Kset a' (46%N :: d ++ t)); [exact Hlen|apply digits_inK; exact Hda'|].
       cbn [stops]. exact D_K.
-    - cbn [seq map Nat.sub]. intros r Hr. destruct Hr as [<-|[<-|[]]].
-      + unfold v. cbn [app]. rewrite dead1_olen by (apply dead_digit; [exact Hc|cbn [In]; tauto]). lia.
-      + unfold v. cbn [app]. rewrite error_olen. lia. }
-  assert (Hv : v <> []) by (unfold v; discriminate).
-  rewrite (lex_token v t (rule_at 7) Hv P). rewrite S7, K7. reflexivity.
+    - cbn [seq map Nat.sub]. intros r Hr. cbn [app]. destruct Hr as [<-|[<-|[]]].
+      + rewrite dead1_olen by (apply Hdead; cbn [In]; tauto). clear. lia.
+      + rewrite error_olen. clear. cbn [length]. lia. }
+  change (c :: (a' ++ 46%N :: d) ++ t) with ((c :: a' ++ 46%N :: d) ++ t).
+  rewrite (lex_token (c :: a' ++ 46%N :: d) t (rule_at 7) ltac:(discriminate) P). rewrite sk7, kd7. reflexivity.
 Qed.
 
 (* the regular expression ^\d+(\.\d+)?$ by cases *)
@@ -420,3 +415,190 @@ Section Toks.
       vm_compute. reflexivity.
   Qed.
 End Toks.
+
+(* ---- conditions and trees ---------------------------------------------------------------------------------------- *)
+
+(* keys that can be written as a property *)
+Definition key_ok (pt : ptype) (key : list N) : Prop :=
+  match pt with
+  | PAttr => exists ft, In (key, ft) attributes
+  | PURN | PField => key_chars key
+  | PNone => False
+  end.
+
+Definition op_ok (o : oper) : Prop := forall t, o <> OpOther t.
+
+Inductive lexable : node -> Prop :=
+| lx_cond : forall pt key o v, key_ok pt key -> op_ok o -> lexable (Cond pt key o v)
+| lx_comb : forall b ch, Forall lexable ch -> lexable (Comb b ch).
+
+Lemma oper_text_in o : op_ok o -> In (o, oper_text o) operator_texts.
+Proof.
+  intros H. destruct o; try (vm_compute; tauto). exfalso. exact (H t eq_refl).
+Qed.
+
+Lemma oper_heads : forallb (fun o => match snd o with c :: _ => negb (inW c) | [] => false end) operator_texts = true.
+Proof. vm_compute. reflexivity. Qed.
+
+Lemma oper_text_head o : op_ok o -> exists c s, oper_text o = c :: s /\ inW c = false.
+Proof.
+  intros H. pose proof (oper_text_in o H) as Hin. pose proof oper_heads as A.
+  rewrite forallb_forall in A. specialize (A _ Hin). cbn [snd] in A.
+  destruct (oper_text o) as [|c s]; [discriminate|]. exists c, s. split; [reflexivity|].
+  apply negb_true_iff in A. exact A.
+Qed.
+
+Lemma lex_operator o t : op_ok o ->
+  cql_lex (oper_text o ++ 32%N :: t) = pushl [(COMPARATOR, oper_text o)] (cql_lex (32%N :: t)).
+Proof.
+  intros H. apply lex_concrete. destruct concrete_tokens as (_ & A & _).
+  rewrite forallb_forall in A. exact (A _ (oper_text_in o H)).
+Qed.
+
+Section Trees.
+  Variable p : N -> bool.
+
+  Definition toks_cond (pt : ptype) (key : list N) (o : oper) (v : list N) : list token :=
+    [(PROPERTY, prop_prefix pt ++ key); (COMPARATOR, oper_text o); tok_value p v].
+
+  Definition bool_tok (b : boolop) : token :=
+    match b with BAnd => (AND, kw_and) | BOr => (OR, kw_or) end.
+
+  Fixpoint jointoks (sep : token) (l : list (list token)) : list token :=
+    match l with
+    | [] => []
+    | [x] => x
+    | x :: r => x ++ sep :: jointoks sep r
+    end.
+
+  Fixpoint toks (q : node) : list token :=
+    match q with
+    | Cond pt key o v => toks_cond pt key o v
+    | Comb b ch => (LPAREN, [40%N]) :: jointoks (bool_tok b) (map toks ch) ++ [(RPAREN, [41%N])]
+    end.
+
+  Lemma lex_property pt key t : key_ok pt key ->
+    cql_lex (prop_prefix pt ++ key ++ 32%N :: t) = pushl [(PROPERTY, prop_prefix pt ++ key)] (cql_lex (32%N :: t)).
+  Proof.
+    intros H. destruct pt; cbn [key_ok prop_prefix] in *.
+    - destruct H as [ft H]. cbn [app]. eapply lex_attribute. exact H.
+    - apply lex_prefixed; [right; reflexivity|exact H].
+    - apply lex_prefixed; [left; reflexivity|exact H].
+    - contradiction.
+  Qed.
+
+  Lemma lex_cond pt key o v t : key_ok pt key -> op_ok o -> rest_ok t ->
+    cql_lex (print_cond p pt key o v ++ t) = pushl (toks_cond pt key o v) (cql_lex t).
+  Proof.
+    intros Hk Ho Ht. unfold print_cond, toks_cond.
+    repeat rewrite <- app_assoc. cbn [app].
+    rewrite (lex_property pt key _ Hk).
+    destruct (oper_text_head o Ho) as (c & s & Eo & Hc).
+    rewrite Eo. cbn [app]. rewrite (lex_space c _ Hc). rewrite <- Eo.
+    change (c :: s ++ 32%N :: print_value p v ++ t) with ((c :: s) ++ 32%N :: print_value p v ++ t).
+    rewrite <- Eo. rewrite (lex_operator o _ Ho).
+    destruct (print_value_head p v) as (c' & s' & Ev & Hc').
+    rewrite Ev. cbn [app]. rewrite (lex_space c' _ Hc').
+    change (c' :: s' ++ t) with ((c' :: s') ++ t). rewrite <- Ev.
+    rewrite (lex_value p v t Ht).
+    destruct (cql_lex t); reflexivity.
+  Qed.
+
+  (* a condition whose value was substituted with the escaping, in front of ANY remaining template text *)
+  Lemma lex_cond_escaped pt key o v t : key_ok pt key -> op_ok o ->
+    cql_lex (prop_prefix pt ++ key ++ [32%N] ++ oper_text o ++ [32%N] ++ quote_value p v ++ t)
+    = pushl [(PROPERTY, prop_prefix pt ++ key); (COMPARATOR, oper_text o); (STRING, quote_value p v)] (cql_lex t).
+  Proof.
+    intros Hk Ho. cbn [app].
+    rewrite (lex_property pt key _ Hk).
+    destruct (oper_text_head o Ho) as (c & s & Eo & Hc).
+    rewrite Eo. cbn [app]. rewrite (lex_space c _ Hc).
+    change (c :: s ++ 32%N :: quote_value p v ++ t) with ((c :: s) ++ 32%N :: quote_value p v ++ t).
+    rewrite <- Eo. rewrite (lex_operator o _ Ho).
+    destruct (quote_value_shape p v) as (body & Eq & _).
+    rewrite Eq. cbn [app]. rewrite (lex_space 34%N) by (vm_compute; reflexivity).
+    change (34%N :: (body ++ [34%N]) ++ t) with ((34%N :: body ++ [34%N]) ++ t). rewrite <- Eq.
+    rewrite lex_quoted_value.
+    destruct (cql_lex t); reflexivity.
+  Qed.
+
+  (* the first character of a printed tree is not white space *)
+  Lemma key_head pt key : key_ok pt key -> exists c s, prop_prefix pt ++ key = c :: s /\ inW c = false.
+  Proof.
+    intros H. destruct pt; cbn [key_ok prop_prefix] in *.
+    - destruct H as [ft H]. cbn [app].
+      assert (A : forallb (fun a => match fst a with c :: _ => negb (inW c) | [] => false end) attributes = true)
+        by (vm_compute; reflexivity).
+      rewrite forallb_forall in A. specialize (A _ H). cbn [fst] in A.
+      destruct key as [|c s]; [discriminate|]. exists c, s. split; [reflexivity|]. apply negb_true_iff in A. exact A.
+    - eexists _, _. split; [reflexivity|]. vm_compute. reflexivity.
+    - eexists _, _. split; [reflexivity|]. vm_compute. reflexivity.
+    - contradiction.
+  Qed.
+
+  Lemma print_head q : lexable q -> exists c s, print p q = c :: s /\ inW c = false.
+  Proof.
+    intros H. destruct H as [pt key o v Hk Ho|b ch Hch].
+    - destruct (key_head pt key Hk) as (c & s & E & Hc). cbn [print]. unfold print_cond.
+      rewrite app_assoc, E. cbn [app]. eauto.
+    - cbn [print app]. eexists _, _. split; [reflexivity|]. vm_compute. reflexivity.
+  Qed.
+
+  Lemma bool_word_eq b : bool_word b = 32%N :: snd (bool_tok b) ++ [32%N].
+  Proof. destruct b; reflexivity. Qed.
+
+  Lemma lex_bool_word b c t : inW c = false ->
+    cql_lex (bool_word b ++ c :: t) = pushl [bool_tok b] (cql_lex (c :: t)).
+  Proof.
+    intros Hc. destruct concrete_tokens as (_ & _ & A & O).
+    destruct b; cbn [bool_word app bool_tok].
+    - rewrite (lex_space 65%N) by (vm_compute; reflexivity).
+      change (65%N :: 78%N :: 68%N :: 32%N :: c :: t) with (kw_and ++ 32%N :: c :: t).
+      rewrite (lex_concrete AND kw_and _ A). rewrite (lex_space c _ Hc). reflexivity.
+    - rewrite (lex_space 79%N) by (vm_compute; reflexivity).
+      change (79%N :: 82%N :: 32%N :: c :: t) with (kw_or ++ 32%N :: c :: t).
+      rewrite (lex_concrete OR kw_or _ O). rewrite (lex_space c _ Hc). reflexivity.
+  Qed.
+
+  (* children joined by " AND " / " OR " *)
+  Lemma lex_children b : forall ch,
+    Forall (fun c => lexable c /\ forall t, rest_ok t -> cql_lex (print p c ++ t) = pushl (toks c) (cql_lex t)) ch ->
+    forall t, rest_ok t ->
+    cql_lex (join (bool_word b) (map (print p) ch) ++ t) = pushl (jointoks (bool_tok b) (map toks ch)) (cql_lex t).
+  Proof.
+    induction ch as [|x ch IH]; intros H t Ht.
+    - cbn [map join jointoks app]. rewrite pushl_nil. reflexivity.
+    - inversion H as [|? ? [Hx Hlx] Hrest]; subst.
+      destruct ch as [|y ch'].
+      + cbn [map join jointoks]. apply Hlx. exact Ht.
+      + change (join (bool_word b) (map (print p) (x :: y :: ch')))
+          with (print p x ++ bool_word b ++ join (bool_word b) (map (print p) (y :: ch'))).
+        change (jointoks (bool_tok b) (map toks (x :: y :: ch')))
+          with (toks x ++ bool_tok b :: jointoks (bool_tok b) (map toks (y :: ch'))).
+        repeat rewrite <- app_assoc.
+        rewrite Hlx by (rewrite bool_word_eq; cbn [app rest_ok]; left; reflexivity).
+        (* the next child starts with a character that is not white space *)
+        assert (Hy : exists c s, join (bool_word b) (map (print p) (y :: ch')) ++ t = c :: s /\ inW c = false).
+        { inversion Hrest as [|? ? [Hly _] _]; subst. destruct (print_head y Hly) as (c & s & E & Hc).
+          destruct ch' as [|z ch'']; cbn [map join]; rewrite E; cbn [app]; eauto. }
+        destruct Hy as (c & s & E & Hc). rewrite E. rewrite (lex_bool_word b c s Hc). rewrite <- E.
+        rewrite (IH Hrest t Ht).
+        destruct (cql_lex t); cbn [pushl]; [|reflexivity|reflexivity].
+        rewrite <- app_assoc. reflexivity.
+  Qed.
+
+  Lemma lex_node : forall q, lexable q -> forall t, rest_ok t ->
+    cql_lex (print p q ++ t) = pushl (toks q) (cql_lex t).
+  Proof.
+    induction q as [pt key o v|b ch IH] using node_ind'; intros Hl t Ht.
+    - inversion Hl; subst. cbn [print toks]. apply lex_cond; assumption.
+    - inversion Hl as [|? ? Hch]; subst. cbn [print toks].
+      repeat rewrite <- app_assoc. cbn [app]. rewrite lex_lparen.
+      assert (HF : Forall (fun c => lexable c /\ forall t, rest_ok t -> cql_lex (print p c ++ t) = pushl (toks c) (cql_lex t)) ch).
+      { rewrite Forall_forall in *. intros c Hc. split; [apply Hch; exact Hc|]. apply IH; [exact Hc|apply Hch; exact Hc]. }
+      rewrite (lex_children b ch HF (41%N :: t)) by (cbn [rest_ok]; right; reflexivity).
+      rewrite lex_rparen.
+      destruct (cql_lex t); cbn [pushl]; try reflexivity.
+      cbn [app]. rewrite <- app_assoc. reflexivity.
+  Qed.
+End Trees.
